@@ -1,6 +1,6 @@
 (* family 5: PUS telecommands *)
 From Coq Require Import ZArith List Bool.
-From SP Require Import Base.Result Base.Bytes Base.Crc16 Run.Marshal Run.DispSph Model.SpacePacket Model.PusTc Spec.PusSpec.
+From SP Require Import Base.Result Base.Bytes Base.Crc16 Run.Marshal Run.DispSph Model.SpacePacket Model.PusTc Model.PusTcHist Spec.PusSpec.
 Import ListNotations.
 Open Scope Z_scope.
 
@@ -25,6 +25,50 @@ Definition tc_op_of (l : list Z) : tc_op :=
   | 6 :: v :: _ => TcSetSource v
   | _ => TcPack
   end.
+
+(* ---- extended histories (op 520) ---- *)
+Definition tcx_op_of (l : list Z) : tcx_op :=
+  match l with
+  | 0 :: _ => XPack
+  | 1 :: _ => XPackNoRecalc
+  | 2 :: _ => XCalcCrc
+  | 3 :: d => XSetApp d
+  | 4 :: v :: _ => XSetHdr 5 v
+  | 5 :: v :: _ => XSetHdr 3 v
+  | 6 :: v :: _ => XSetSec 2 v
+  | 7 :: _ => XView
+  | 8 :: _ => XInspect
+  | 9 :: d => XSetApp d
+  | 10 :: d => XExtendApp d
+  | 23 :: l => XNewHdr l
+  | 24 :: l => XNewSec l
+  | 25 :: _ => XEq
+  | 26 :: _ => XRoundtrip
+  | 27 :: _ => XSwitch
+  | 30 :: f :: v :: _ => XSetHdr f v
+  | 31 :: f :: v :: _ => XSetSec f v
+  | _ => XInspect
+  end.
+
+(* everything a caller can read from the object: the fields, and the PusTc-level getters *)
+Definition tc_inspect (t : tc) : args :=
+  tc_fields t ++
+  [[tcs_service (tc_sec t); tcs_subservice (tc_sec t); tcs_source_id (tc_sec t);
+    apid (tc_sph t); scount (tc_sph t); ver (tc_sph t);
+    pid_raw (sph_pid (tc_sph t)); psc_raw (sph_psc (tc_sph t));
+    ptype (tc_sph t); shf (tc_sph t); sflags (tc_sph t)]].
+
+Definition tcx_obs (r : res tcx_out) : args :=
+  match r with
+  | Err e => [[1; canon_code e]]
+  | Ok ONone => [[0]]
+  | Ok (OBytes b) => [[0]; b]
+  | Ok (OState t) => [0] :: tc_inspect t
+  | Ok (OEq x y) => [[0]; [b2z x; b2z y]]
+  | Ok (ORound e u) => [0] :: [b2z e] :: tc_fields u
+  end.
+
+Definition tcx_closing : list tcx_op := [XInspect; XView; XInspect; XPack; XInspect].
 
 Definition run_tc (op : Z) (a : args) : args :=
   match op with
@@ -53,6 +97,15 @@ Definition run_tc (op : Z) (a : args) : args :=
               do sp <- tc_to_space_packet_pack u;
               do p <- tc_pack u;
               Ok [sp; fst p; [tc_packet_len u]])
+  (* extended history: construction path + parameters in list 0, data in list 1, operations in
+     lists 2..; every operation leaves its observation; closing sequence of views and packs; the
+     last list: number of caller-owned buffers the library changed, number of octet strings the library
+     had handed out earlier (pack results, views) that changed afterwards (0, 0 in the model) *)
+  | 520 => ret (fun r => r)
+             (do t <- tcx_make (lst 0 a) (lst 1 a);
+              (* the untouched twin the adapter builds from the same arguments has the same value *)
+              let '(_, outs) := tcx_run t t (map tcx_op_of (skipn 2 a) ++ tcx_closing) in
+              Ok (flat_map tcx_obs outs ++ [[0; 0]]))
   (* Spec *)
   | 550 => [[0]; tc_layout (int 0 0 a) (int 0 1 a) (int 0 2 a) (int 0 3 a) (int 0 4 a) (int 0 5 a) (lst 1 a)]
   | _ => [[1; 97]]
